@@ -238,6 +238,8 @@ pub struct Repair<N: Network> {
     blockstore: SharedBlockstore,
     pool: SharedPool,
     slice_roots: BTreeMap<(BlockId, SliceIndex), SliceRoot>,
+    /// Index of the last slice of each block, as proved by a `LastSliceRoot` response.
+    last_slices: BTreeMap<BlockId, SliceIndex>,
     outstanding_requests: BTreeMap<Hash, RepairRequestType>,
     /// Expiry times of outstanding requests, earliest first (min-heap via [`Reverse`]).
     request_timeouts: BinaryHeap<Reverse<(Instant, Hash)>>,
@@ -266,6 +268,7 @@ where
             blockstore,
             pool,
             slice_roots: BTreeMap::new(),
+            last_slices: BTreeMap::new(),
             outstanding_requests: BTreeMap::new(),
             request_timeouts: BinaryHeap::new(),
             network,
@@ -374,6 +377,7 @@ where
                 // store slice Merkle root
                 self.slice_roots
                     .insert((block_id.clone(), last_slice), root);
+                self.last_slices.insert(block_id.clone(), last_slice);
 
                 // issue next requests
                 // TODO: do not request last slice root again
@@ -431,6 +435,13 @@ where
                 // shred for the wrong slice root, don't even try to verify signature
                 if &shred.slice_root() != root {
                     warn!("repair response (Shred) with slice root not matching proved slice root");
+                    return;
+                }
+                // the last-slice flag is covered by the leader's signature only, not by the slice root:
+                // a signed shred of another slice with the same root must not be stored for this block
+                let is_last_slice = self.last_slices.get(block_id) == Some(&slice);
+                if shred.payload().header.is_last != is_last_slice {
+                    warn!("repair response (Shred) with last-slice flag not matching proved last slice");
                     return;
                 }
                 // have no commitment cache for repair, always verify signature (i.e. `None` here)
